@@ -5,6 +5,12 @@ NOTES = ("Technique: machine-checked proof in Lean 4 of theorems about a hand-wr
 NOT_APPLICABLE_REASON = {}
 
 CLAIMS = {
+ "C20": {
+  "text": "Lean theorems prove, for EVERY heap of loaded slabs, that the (repaired) health check accepts exactly the healthy heaps and returns the true root set (health_sound, health_complete), that each of the four corruption kinds applied to any healthy heap at any slab is rejected, and that the all-child-references query is exact on healthy heaps. The model is tied to CheckStorageHealth/GetAllChildReferences by replaying heaps dumped from real storages (healthy and corrupted) and comparing outcomes. The defect this check found on the pinned tree (dangling reference to a slab removed through the storage passes the check) was repaired by a fix: commit; see known_findings.txt.",
+  "design_ref": "DESIGN.md 7/C20, 8 (F1)",
+  "note": "Trusted: Lean kernel; HealthSpec.lean (definition of Healthy); harness heap dump (hooks VerifDeltas/VerifCache + ChildStorables traversal); storages are explored with all slabs loaded, as the property states.",
+  "technique": "Lean 4 soundness+completeness proof of the health-check algorithm against a graph specification + heap-level correspondence with the implementation",
+ },
  "C15": {
   "text": "Lean theorems (inv_reachable, step_refines, retrieve_eq_view, commit_makes_base_eq_view, dropAll_reverts, observers_consistent, temp_never_in_ledger) prove that the storage state machine refines the write-back-overlay specification for EVERY finite operation sequence over any identifier universe, incl. faulty commits and re-creation. The model is tied to PersistentSlabStorage by replaying every generated history on both and comparing each observation, each ledger call log and, after every step, where every identifier is served from.",
   "design_ref": "DESIGN.md 7/C15, Appendix C",
